@@ -24,6 +24,7 @@ func genCaseC08(t *rapid.T) *c08Case {
 	d, vars := GenDoc(t, base.Schema, p, false)
 	base.Doc, base.Vars = d, vars
 	base.Op = d.Ops[0].Name
+	base.LateRegister = rapid.IntRange(0, 3).Draw(t, "lateRegister") == 0
 	cc := &c08Case{Base: base, Bind: bind}
 	cc.Configs = append(cc.Configs, uniform(base, "X", false, "reflection", false))
 	var tnames []string
@@ -60,7 +61,7 @@ func TestC08(t *testing.T) {
 	run := hx.NewRun("C08")
 	defer run.Flush()
 	classes := func(c *Case, exp *hx.Expect, bind map[string]UBinding) (bool, []string) {
-		cl := []string{"config=" + c.Note}
+		cl := []string{"config=" + c.Note, fmt.Sprintf("registered-after-first-use=%v", c.LateRegister)}
 		for tn, b := range bind {
 			fam := "X"
 			for _, n := range c.Graph.Nodes {
